@@ -154,8 +154,25 @@ func c06(c *Ctx) {
 		enq := ix.Func("(*bufferExporter).EnqueueExport")
 		tryDq := ix.Func("(*queue).TryDequeue")
 		cnt := 0
+		// declared helpers called from poll (or from a literal in it): the hand-over may live in one of them
+		calledFromPoll := map[*FuncInfo]*ast.CallExpr{}
 		for _, f := range ix.All {
 			if ix.Outer(f) != fn {
+				continue
+			}
+			inspectNoLit(f.Body(), func(m ast.Node) bool {
+				if call, ok := m.(*ast.CallExpr); ok {
+					if h := ix.declByObj(callee(info, call)); h != nil && h != fn {
+						calledFromPoll[h] = call
+					}
+				}
+				return true
+			})
+		}
+		for _, f := range ix.All {
+			outer := ix.Outer(f)
+			helperCall := calledFromPoll[outer]
+			if outer != fn && helperCall == nil {
 				continue
 			}
 			for _, n := range nodesIn(f, func(n ast.Node) bool { return callToDecl(info, enq)(n) }) {
@@ -163,13 +180,16 @@ func c06(c *Ctx) {
 				key := "sdk/log|(*BatchProcessor).poll|EnqueueExport accepted ⇒ buffer re-allocated #" + itoa(cnt)
 				// the buffer: first argument of the TryDequeue call this literal is passed to
 				var buf types.Object
+				var dqIn *FuncInfo
+				var dqCall *ast.CallExpr
 				for _, g := range ix.All {
-					if ix.Outer(g) != fn {
+					if ix.Outer(g) != outer {
 						continue
 					}
 					inspectNoLit(g.Body(), func(m ast.Node) bool {
 						if call, ok := m.(*ast.CallExpr); ok && callToDecl(info, tryDq)(call) && len(call.Args) == 2 && f.Lit != nil && unparen(call.Args[1]) == ast.Expr(f.Lit) {
 							buf = objOf(info, call.Args[0])
+							dqIn, dqCall = g, call
 						}
 						return true
 					})
@@ -177,6 +197,17 @@ func c06(c *Ctx) {
 				if buf == nil {
 					c.Undecided("R4", key, at(ix.M, n.Pos()), "cannot identify the dequeue buffer handed to TryDequeue")
 					continue
+				}
+				// the variable whose re-binding replaces the buffer for the next round: the buffer variable itself, or — when the
+				// hand-over lives in a helper — the result the helper returns and the caller stores back into the variable it passed
+				next := buf
+				if outer != fn {
+					why := ""
+					next, why = handedBackResult(ix, outer, helperCall, buf, dqIn, dqCall)
+					if next == nil {
+						c.Violation("R4", key, at(ix.M, n.Pos()), "the hand-over moved into "+outer.Name+" and the fresh buffer does not provably replace the caller's: "+why)
+						continue
+					}
 				}
 				g := ix.FG(f)
 				// result variable of EnqueueExport
@@ -188,7 +219,7 @@ func c06(c *Ctx) {
 					return true
 				})
 				rebinds := toSet(g.Match(func(m ast.Node) bool {
-					r := assignRHS(m, func(e ast.Expr) bool { return sameVar(info, e, buf) })
+					r := assignRHS(m, func(e ast.Expr) bool { return sameVar(info, e, next) })
 					if r == nil {
 						return false
 					}
@@ -552,4 +583,103 @@ func ifaceMethod(p *pkgT, typ, name string) *types.Func {
 		}
 	}
 	return nil
+}
+
+// handedBackResult (C06.R4): the dequeue-and-hand-over step lives in helper h, called from the poll loop at `call`. buf is h's
+// parameter handed to TryDequeue (dqCall, inside function dqIn of h). Returns the variable of h whose value replaces the
+// caller's buffer: h returns it at result position j on every return, the caller assigns result j back to the very variable it
+// passed for buf, and h itself does not touch buf after the dequeue call.
+func handedBackResult(ix *PkgIndex, h *FuncInfo, call *ast.CallExpr, buf types.Object, dqIn *FuncInfo, dqCall *ast.CallExpr) (types.Object, string) {
+	info := ix.Pkg.TypesInfo
+	sig := h.Obj.Type().(*types.Signature)
+	pi := -1
+	for i := 0; i < sig.Params().Len(); i++ {
+		if types.Object(sig.Params().At(i)) == buf {
+			pi = i
+		}
+	}
+	if pi < 0 || pi >= len(call.Args) {
+		return nil, "the buffer is not a parameter of the helper"
+	}
+	passed := objOf(info, call.Args[pi])
+	if passed == nil {
+		return nil, "the caller does not pass a variable"
+	}
+	// the caller stores a result back into that variable
+	var as *ast.AssignStmt
+	for _, f := range ix.All {
+		ast.Inspect(f.Body(), func(n ast.Node) bool {
+			if a, ok := n.(*ast.AssignStmt); ok && len(a.Rhs) == 1 && unparen(a.Rhs[0]) == ast.Expr(call) {
+				as = a
+			}
+			return true
+		})
+	}
+	if as == nil {
+		return nil, "the helper's results are not assigned"
+	}
+	j := -1
+	for k, l := range as.Lhs {
+		if objOf(info, l) == passed {
+			j = k
+		}
+	}
+	if j < 0 || j >= sig.Results().Len() {
+		return nil, "no result is stored back into the buffer variable"
+	}
+	// every return of h yields the same variable at position j
+	var res types.Object
+	okAll := true
+	inspectNoLit(h.Body(), func(n ast.Node) bool {
+		rs, ok := n.(*ast.ReturnStmt)
+		if !ok {
+			return true
+		}
+		var v types.Object
+		if len(rs.Results) == 0 {
+			v = sig.Results().At(j)
+		} else if j < len(rs.Results) {
+			v = objOf(info, rs.Results[j])
+		}
+		if v == nil || v == buf {
+			// returning the untouched buffer is the refused/not-ready path; it does not name the replacement
+			if v == nil {
+				okAll = false
+			}
+			return true
+		}
+		if res != nil && res != v {
+			okAll = false
+		}
+		res = v
+		return true
+	})
+	if !okAll || res == nil {
+		return nil, "the helper does not return one variable as the next buffer"
+	}
+	// h does not use buf after the dequeue call
+	g := ix.FG(dqIn)
+	at := g.NodeOf(dqCall)
+	if at == nil {
+		return nil, "dequeue call not located"
+	}
+	seen, _ := g.Reach([]*GNode{at}, nil, nil)
+	for y := range seen {
+		if y == at || y.N == nil {
+			continue
+		}
+		used := false
+		inspectNoLit(y.N, func(m ast.Node) bool {
+			if id, ok := m.(*ast.Ident); ok && info.Uses[id] == buf {
+				used = true
+			}
+			return true
+		})
+		if used && !g.InCycle(at) {
+			if _, isRet := y.N.(*ast.ReturnStmt); !isRet {
+				return nil, "the helper uses the handed-over buffer after the dequeue at " + ix.M.posStr(y.N.Pos())
+			}
+		}
+	}
+	return res, ""
 }
